@@ -601,47 +601,41 @@ def c18(tier, seed):
 
 @prop('C15')
 def c15(tier, seed):
-    from . import asynck
+    from . import asynck, twins, overlay
     ck = Check('C15', tier, seed)
     prog = load_program(('async-vfs',))
+    rng = random.Random(seed)
     k = 3 if tier == 'quick' else 4
-    cases = [{'clen': c, 'k': k} for c in range(0, 4 if tier == 'quick' else 5)]
+    cases = [{'clen': c, 'k': k if c < 3 else k - 1} for c in range(0, 4 if tier == 'quick' else 5)]
     ck.add(run_cases(prog, asynck.run_async_reader_case, cases), 'AsyncReadableFile::poll_read/poll_seek vs the sync reader contract on symbolic scripts')
-    ck.bounds = {'claimed_part': 'the hand-written async reader kernels only', 'content': '0..%d symbolic bytes' % (3 if tier == 'quick' else 4), 'script_steps': k,
-                 'offsets': 'any 64-bit value', 'outside': 'the async filesystems, AsyncVfsPath composites, streams and poll schedules (lowered coroutines are not interpreted yet)'}
-    ck.assumptions = COMMON_ASSUMPTIONS[:2] + ['async-vfs MIR is dumped with the stable toolchain (RUSTC_BOOTSTRAP=1); the nightly cannot build rustix 0.37']
-    ck.rule = 'a state = content length class with symbolic bytes; transitions = all reader scripts of the bounded length'
-    return ck.finish(prog)
-
-
-@prop('C02')
-def c02(tier, seed):
-    from . import c02 as mod
-    from . import transfer
-    ck = Check('C02', tier, seed)
-    prog = load_program()
-    ck.selftest = quick_selftest(prog, seed, 40 if tier == 'quick' else 400, kinds=['phys', 'altphys', 'ovlphys', 'mem'])
-    u = UNIVERSES['U5']()
-    ops = [(op, v) for op in ALL_OPS + ['hopen', 'create_hold'] for v in u.vars]
-    cases = [{'universe': 'U5', 'shape': sh, 'ops': ops} for sh in shapes(u)]
-    ck.add(run_cases(prog, mod.run_diff_case, cases), 'every primitive/observer/composite on every path from every well-formed tree, MemoryFS vs PhysicalFS@OSM in lock-step')
-    ut = UNIVERSES['UT']()
-    tshapes = [sh for sh in shapes(ut)]
-    if tier == 'quick':
-        tshapes = tshapes[::5]
-    tops = []
-    for op_ in ('copy_file', 'move_file', 'copy_dir', 'move_dir'):
-        for src in ('f', 'a', 'a_b', 'a_b_c', 'x'):
-            for dst in ('x', 'x_b', 'a_b'):
-                if op_ in ('copy_dir', 'move_dir') and (dst == src or dst.startswith(src + '_')):
-                    continue       # destination inside the source: documented non-termination
-                if src != dst:
-                    tops.append((op_, src, dst))
-    cases2 = [{'universe': 'UT', 'shape': sh, 'ops': tops} for sh in tshapes]
-    ck.add(run_cases(prog, mod.run_diff_case, cases2), 'copy/move of files and directories within one instance (PhysicalFS fast paths fs::copy/rename vs the generic stream copy)')
-    ck.bounds = {'universe': 'U5 (all 63 trees) and UT (transfer positions)', 'file_bytes': '0..2 symbolic, shared by both backends', 'steps': 1,
-                 'relative_to': 'the OS contract model of std::fs (mirsym/osm.py), validated against the real kernel by %d selftest scripts in this run' % ck.selftest['scripts'],
-                 'excluded': 'timestamps, message texts, other I/O error kinds, seek on append handles, symlinks/permissions'}
-    ck.assumptions = COMMON_ASSUMPTIONS + ['PhysicalFS runs over the OS contract model (Linux outcomes: ENOENT, EEXIST, ENOTDIR, EISDIR, ENOTEMPTY, EINVAL); the kernel itself is not encoded']
-    ck.rule = 'a state = one well-formed tree built on both backends; a transition = one call executed on both; non-trivial = non-empty tree or root target'
+    u = UNIVERSES['U3']()
+    ops = [(op, v) for op in ALL_OPS for v in u.vars]
+    tcases = []
+    shs = shapes(u)
+    for config in ('mem', 'alt'):
+        for sh in (shs if tier != 'quick' else shs[::2]):
+            tcases.append({'universe': 'U3', 'config': config, 'state': sh, 'ops': ops, 'pendings': [0, 1] if tier == 'quick' else [0, 1, 2]})
+    uo = overlay.UO3()
+    cfgs = overlay.layer_configs(uo, 2)
+    rng.shuffle(cfgs)
+    oops = [(op, v) for op in overlay.HIST_OPS + overlay.OBS_OPS for v in uo.vars]
+    for cfg in cfgs[:(14 if tier == 'quick' else len(cfgs))]:
+        tcases.append({'universe': 'UO3', 'config': 'ovl', 'state': cfg, 'ops': oops if tier != 'quick' else rng.sample(oops, 24), 'pendings': [0, 1]})
+    tr = [(op_, src, dst) for op_ in ('copy_file', 'move_file', 'copy_dir', 'move_dir') for src in ('a', 'ab', 'a_b') for dst in ('x', 'ab')
+          if src != dst]
+    for sh in shs[::3]:
+        tcases.append({'universe': 'U3', 'config': 'mem', 'state': sh, 'ops': tr, 'pendings': [0, 1]})
+    ck.add(run_cases(prog, twins.run_twin_case, tcases), 'sync vs async twins in lock-step (MemoryFS, AltrootFS, OverlayFS; primitives, observers, composites, transfers) on lowered-coroutine MIR')
+    wcases = [{'universe': 'U3', 'config': c, 'state': sh} for c in ('mem', 'alt') for sh in shs if len(sh) >= 2]
+    for cfg in cfgs[:(6 if tier == 'quick' else 60)]:
+        if len(cfg) >= 2:
+            wcases.append({'universe': 'UO3', 'config': 'ovl', 'state': cfg})
+    ck.add(run_cases(prog, twins.run_walk_case, wcases), 'walk_dir consumed item by item with a removal in between: sync iterator vs async stream')
+    ck.bounds = {'reader_kernels': 'content 0..%d symbolic bytes, %d-step scripts, any 64-bit offset' % (3 if tier == 'quick' else 4, k),
+                 'twins': 'one call from every well-formed tree over U3 (mem, alt) / sampled layer assignments (ovl); transfers; walk stepping with one removal',
+                 'pending_polls_per_external_future': '0, 1 (2 in thorough / walk)', 'outside': 'AsyncPhysicalFS (async-std fs / tokio blocking tasks), runtimes, the drop-time block_on of the async writer beyond its effect'}
+    ck.assumptions = COMMON_ASSUMPTIONS[:2] + ['async-vfs MIR is dumped with the stable toolchain (RUSTC_BOOTSTRAP=1); the nightly cannot build rustix 0.37',
+                                                'external futures (async-std RwLock, Cursor I/O, stream next, io::copy) are contract models that return Pending a chosen number of times before Ready; lowered coroutines of the crate are executed from MIR by a trivial executor',
+                                                'hash iteration order is the same on both sides (insertion order)']
+    ck.rule = 'a state = (configuration, tree / layer assignment, pending policy); a transition = one call executed through both APIs (or one stepwise walk); non-trivial = non-empty tree'
     return ck.finish(prog)
